@@ -59,6 +59,7 @@ FACTORS = {
     'objective': OBJECTIVES, 'ret': ['pyfloat', 'npscalar'], 'box': BOXES, 'agents': ['min', 2, 5, 20],
     'n_variables': [1, 2, 5], 'n_dimensions': [1, 2, 4], 'n_iterations': [1, 3, 10], 'draws': SCRIPTS,
     'hp': ['default', 'default', 'lo', 'hi', 'rnd'], 'store_best_only': [False, False, True], 'hook': ['observe', 'observe', 'observe', 'move'],
+    'hp_numpy': [False, False, True],
 }
 TREE_FACTORS = {
     'functions': ['all', 'unary', 'binary', 'arith'], 'depth': [(1, 1), (1, 3), (2, 5)], 'n_terminals': [1, 3],
@@ -96,7 +97,7 @@ def make(opt, space, c, idx, timeout):
            'lb': lb, 'ub': ub, 'box': c['box'], 'objective': c['objective'], 'ret': c['ret'], 'draws': c['draws'],
            'seed': rnd.randrange(1, 10 ** 6), 'store_best_only': c['store_best_only'], 'hook': c['hook'] if space != 'tree' else 'observe',
            'hp_mode': hp_mode, 'hp_edge': hp_mode == 'edge', 'hyperparams': hyperparams(opt, hp_mode, rnd, na), 'timeout': timeout,
-           'repro': c['draws'] == 'seeded'}
+           'repro': c['draws'] == 'seeded', 'hp_numpy': bool(c.get('hp_numpy'))}
     if opt == 'ABC' and cfg['draws'] in ('high', 'alt', 'mixed'):
         # a stream that answers 'just below 1' to every selection draw (all-high; alternating extremes with an even
         # number of draws per pass) never selects an onlooker: outside the fairness hypothesis of C03's termination theorem
@@ -205,6 +206,8 @@ def shrink_candidates(cfg):
         alt(hyperparams={}, hp_mode='default')
     if cfg.get('ret') == 'npscalar':
         alt(ret='pyfloat')
+    if cfg.get('hp_numpy'):
+        alt(hp_numpy=False)
     return out
 
 
@@ -264,6 +267,21 @@ def hunts(quick, focus, timeout):
             if any(p['optimizer'] == 'WCA' for p in cfg['prelude']) and cfg['n_agents'] < 2:
                 cfg['n_agents'] = 2
             cfg['n_agents'] = max([cfg['n_agents']] + [WR[p['optimizer']]['min_agents'] for p in cfg['prelude']])
+            cfg['repro'] = False
+            out.append(cfg)
+    # a history on the optimizer object: the same object has already run a task on another space with fewer / more agents
+    for o in opts:
+        for i in range((2 if len(opts) > 3 else 8) if quick else (6 if len(opts) > 3 else 24)):
+            s = WR[o]['spaces'][i % len(WR[o]['spaces'])]
+            c = {'objective': ['sphere', 'shifted', 'negative', 'linear'][i % 4], 'ret': ['pyfloat', 'npscalar'][i % 2], 'box': ['sym10', 'asym'][i % 2],
+                 'agents': [7, 5, 20, 4][i % 4], 'n_variables': [2, 1][i % 2], 'n_dimensions': [1, 2][i % 2], 'n_iterations': [3, 2, 5][i % 3],
+                 'draws': 'seeded', 'hp': ['default', 'rnd'][(i // 2) % 2], 'store_best_only': False, 'hook': 'observe',
+                 'functions': 'arith', 'depth': (1, 3), 'n_terminals': 2}
+            cfg = make(o, s, c, 9600 + i, timeout)
+            other = [max(WR[o]['min_agents'], 4 if o != 'WCA' else 4), 12][i % 2]
+            if other == cfg['n_agents']:
+                other += 1
+            cfg['reuse_optimizer'] = {'n_agents': other}
             cfg['repro'] = False
             out.append(cfg)
     # self-adapting hyperparameters over many iteration counts: a schedule that leaves its setter's guard by one rounding
